@@ -42,7 +42,7 @@ class CallGraph:
         self.sites.setdefault((a, b), []).append((bb, sp))
 
     def _fmt_target(self, callee, targs, prefix):
-        m = re.search(r"Argument(?:<'_>)?::(new_\w+)", callee)
+        m = re.search(r"Argument(?:::)?(?:<'_>)?::(new_\w+)", callee)
         if not m or m.group(1) not in FMT_TRAITS or not targs:
             return None
         t = targs[0]
